@@ -282,6 +282,11 @@ def report(prop, tier, seed, mod, obs, results, pre, t0):
                 errors.append((r, f"counterexample did not reproduce on the real code (replay: {rep})"))
         else:
             errors.append((r, r.get("msg")))
+    xinfo = None
+    if hasattr(mod, "crosscheck"):
+        xinfo, xerrs = mod.crosscheck(results)
+        for why in xerrs:
+            errors.append(({"id": "cross-validation"}, why))
     lines = []
     for fid, hits in sorted(known_hits.items()):
         f = listed.get(fid, {})
@@ -357,6 +362,7 @@ def report(prop, tier, seed, mod, obs, results, pre, t0):
             "bounds": getattr(mod, "BOUNDS", {}).get(tier, getattr(mod, "BOUNDS", {})),
             "engines": sorted({r.get("engine") for r in results if r.get("engine")}),
             "preflight": pre,
+            "cross_validation": xinfo,
             "trusted_base": getattr(mod, "TRUSTED", []),
         },
         "assumptions": getattr(mod, "ASSUMPTIONS", []),
